@@ -330,6 +330,12 @@ func VerifLemma_C14C_Filter() {
 // vcTwoStates: bucket 1 holds 0..2 objects, bucket 2 holds 0..1 object whose path may equal one of bucket 1's.
 // External paths are distinct per bucket ("1:<path>" / "2:<path>") so the source of an object is observable.
 func vcTwoStates() (*bucket, refCModel, *bucket, refCModel) {
+	return vcTwoStatesTagged("1:", "2:")
+}
+
+// vcTwoStatesTagged: as vcTwoStates with the given external-path tags ("" = the external path is the path itself,
+// which is also what a memory bucket uses by default).
+func vcTwoStatesTagged(tag1, tag2 string) (*bucket, refCModel, *bucket, refCModel) {
 	n := verifParam("PATH")
 	var m1, m2 refCModel
 	o1 := make(map[string]*internal.ImmutableObject)
@@ -342,13 +348,13 @@ func vcTwoStates() (*bucket, refCModel, *bucket, refCModel) {
 		}
 		d := verifNondetStringN(1)
 		m1 = append(m1, refCObj{path: p, data: d, present: true})
-		o1[p] = internal.NewImmutableObject(p, "1:"+p, "", []byte(d))
+		o1[p] = internal.NewImmutableObject(p, tag1+p, "", []byte(d))
 	}
 	if verifNondetBool() {
 		p := vcShapePath(n)
 		d := verifNondetStringN(1)
 		m2 = append(m2, refCObj{path: p, data: d, present: true})
-		o2[p] = internal.NewImmutableObject(p, "2:"+p, "", []byte(d))
+		o2[p] = internal.NewImmutableObject(p, tag2+p, "", []byte(d))
 	}
 	return newBucket(o1), m1, newBucket(o2), m2
 }
@@ -357,13 +363,32 @@ func vcTwoStates() (*bucket, refCModel, *bucket, refCModel) {
 // OverlayReadBucket = union where the first member wins.
 func VerifLemma_C14C_Multi() {
 	ctx := context.Background()
-	b1, m1, b2, m2 := vcTwoStates()
+	// EXT=0: the members' objects carry distinct external paths ("1:<path>" / "2:<path>"), so the source of an object is
+	// observable. EXT=1: the external paths say nothing - either both members use the default external path (== path)
+	// or both are wrapped in StripReadBucketExternalPaths; two members may then hold DIFFERENT bytes under one path
+	// with identical ObjectInfos, and the union must still report the duplicate (added after seeded change C14-m1).
+	tag1, tag2 := "1:", "2:"
+	strip := false
+	if verifParam("EXT") != 0 {
+		if verifNondetBool() {
+			tag1, tag2 = "", ""
+		} else {
+			strip = true
+		}
+	}
+	b1, m1, b2, m2 := vcTwoStatesTagged(tag1, tag2)
+	var r1, r2 storage.ReadBucket = b1, b2
+	exp1, exp2 := tag1, tag2
+	if strip {
+		r1, r2 = storage.StripReadBucketExternalPaths(b1), storage.StripReadBucketExternalPaths(b2)
+		exp1, exp2 = "", ""
+	}
 	overlay := verifParam("OVERLAY") != 0
 	var view storage.ReadBucket
 	if overlay {
-		view = storage.OverlayReadBucket(b1, b2)
+		view = storage.OverlayReadBucket(r1, r2)
 	} else {
-		view = storage.MultiReadBucket(b1, b2)
+		view = storage.MultiReadBucket(r1, r2)
 	}
 	s := verifNondetString(verifParam("ARG"))
 	key, valid := refCKey(s)
@@ -399,7 +424,7 @@ func VerifLemma_C14C_Multi() {
 			verifCover("union from first")
 			verifAssert(err == nil, "union Get/Stat: path in the first member succeeds")
 			if err == nil {
-				verifAssert(oi.Path() == key && oi.ExternalPath() == "1:"+key, "union Get/Stat: object comes from the first member")
+				verifAssert(oi.Path() == key && oi.ExternalPath() == exp1+key, "union Get/Stat: object comes from the first member")
 				if isGet {
 					verifAssert(content == m1[i1].data, "union Get: content is the first member's")
 				}
@@ -408,7 +433,7 @@ func VerifLemma_C14C_Multi() {
 			verifCover("union from second")
 			verifAssert(err == nil, "union Get/Stat: path only in the second member succeeds")
 			if err == nil {
-				verifAssert(oi.Path() == key && oi.ExternalPath() == "2:"+key, "union Get/Stat: object comes from the second member")
+				verifAssert(oi.Path() == key && oi.ExternalPath() == exp2+key, "union Get/Stat: object comes from the second member")
 				if isGet {
 					verifAssert(content == m2[i2].data, "union Get: content is the second member's")
 				}
@@ -452,15 +477,15 @@ func VerifLemma_C14C_Multi() {
 			i1, i2 := m1.find(visited[k]), m2.find(visited[k])
 			verifAssert((i1 >= 0 || i2 >= 0) && refCContains(key, visited[k]), "union Walk: every visited path is a member object under the prefix")
 			if i1 >= 0 {
-				verifAssert(external[k] == "1:"+visited[k], "union Walk: the first member's object is the one visited")
+				verifAssert(external[k] == exp1+visited[k], "union Walk: the first member's object is the one visited")
 			}
 			for j := 0; j < k; j++ {
 				verifAssert(visited[j] != visited[k], "union Walk: no path is visited twice")
 			}
 		}
 	}
-	vcCheckStateExt(b1, m1, "1:", "after union read (first)")
-	vcCheckStateExt(b2, m2, "2:", "after union read (second)")
+	vcCheckStateExt(b1, m1, tag1, "after union read (first)")
+	vcCheckStateExt(b2, m2, tag2, "after union read (second)")
 }
 
 func vcCheckStateExt(b *bucket, m refCModel, tag string, where string) {
